@@ -9,3 +9,12 @@ impl AssetMap {
         AssetMap { hash_builder, shards }
     }
 }
+
+// Ghost constructors: caches over a single-shard map, with a thread-less reloader or none.
+#[cfg(kani)]
+#[allow(dead_code)]
+impl<S: Source> AssetCache<S> {
+    pub(crate) fn verif_new(source: S, reloader: Option<HotReloader>) -> AssetCache<S> {
+        AssetCache { reloader, assets: AssetMap::verif_single_shard(), source }
+    }
+}
